@@ -11,6 +11,7 @@ Fixpoint elval (l : lay) : value :=
   match l with
   | LAtom v => efold v
   | LSeq vec b => if vec then Vector (ebitems b) else build (ebitems b) (ebtail b)
+  | LBytes _ os _ => Bytes (map snd os)
   end
 with ebitems (b : body) : list value :=
   match b with BItem _ e b' => elval e :: ebitems b' | _ => [] end
@@ -37,6 +38,7 @@ Section ElispTrivia.
     match l with
     | LAtom v => txt v
     | LSeq vec b => (if vec then [91] else [40]) ++ ebtxt b ++ [closer vec]
+    | LBytes _ _ _ => []           (* the Emacs Lisp printer writes bytes as a unibyte string: no octet tokens *)
     end
   with ebtxt (b : body) : bytes :=
     match b with
@@ -52,6 +54,7 @@ Section ElispTrivia.
     match l with
     | LAtom v => rt_ok v
     | LSeq vec b => ebok vec true b
+    | LBytes _ _ _ => False
     end
   with ebok (vec first : bool) (b : body) {struct b} : Prop :=
     match b with
@@ -84,7 +87,7 @@ Section ElispTrivia.
   Lemma eltxt_head l : elok l ->
     exists b t, eltxt l = b :: t /\ starts_datum b /\ is_closer b = false /\ (b = 46 -> exists v, l = LAtom v).
   Proof.
-    destruct l as [v|vec b]; intros Hok.
+    destruct l as [v|vec b|p0 os cp]; intros Hok; [| |contradiction].
     - destruct (ElispRoundtrip.txt_head ryu alpha std_parse v Hok) as (b & t & E & Hs & Hc & _).
       exists b, t. repeat split; auto; try apply Hs. intros _. eexists; reflexivity.
     - destruct vec; cbn [eltxt app].
@@ -108,7 +111,7 @@ Section ElispTrivia.
                at_bytes r1 more /\ rk r1 = rk r.
   Proof.
     intros HP f r D acc pre more Hpre Hok HD HD' Hf Ha Hm.
-    destruct e as [v|vec b].
+    destruct e as [v|vec b|p0 os cp]; [| |contradiction].
     - exact (ElispRoundtrip.elem_step ryu alpha fast std_parse v
                (proj1 (ElispRoundtrip.next_value_reads_text ryu alpha fast std_parse v))
                f r D acc pre more Hpre Hok HD HD' Hf Ha Hm).
@@ -270,6 +273,7 @@ Section ElispTrivia.
     apply lay_body_ind.
     - apply EPL_atom.
     - intros vec b Hb. apply EPL_seq. exact Hb.
+    - intros p0 os cp fuel r D pre rest Hpre Hok. contradiction.
     - apply EPB_end.
     - intros p1 p2 t Ht cp. apply EPB_dot. exact Ht.
     - intros p e He b Hb. apply EPB_item; assumption.
